@@ -582,15 +582,19 @@ func (b *symbolTableBuilder) Build() SymbolTable {
 // ProcessImports processes a slice of imports, returning an (augmented) copy, a set of
 // offsets for each import, and the overall max ID.
 func processImports(imports []SharedSymbolTable) ([]SharedSymbolTable, []uint64, uint64) {
-	// Add in V1SystemSymbolTable at the head of the list if it's not already included.
-	var imps []SharedSymbolTable
-	if len(imports) > 0 && imports[0].Name() == "$ion" {
-		imps = make([]SharedSymbolTable, len(imports))
-		copy(imps, imports)
-	} else {
-		imps = make([]SharedSymbolTable, len(imports)+1)
-		imps[0] = V1SystemSymbolTable
-		copy(imps[1:], imports)
+	// Add in V1SystemSymbolTable at the head of the list if it's not already included. It belongs
+	// there and nowhere else: every reader ignores an import named $ion, so one kept further down
+	// the list would number all that follows it differently from whoever reads the declaration.
+	imps := make([]SharedSymbolTable, 1, len(imports)+1)
+	imps[0] = V1SystemSymbolTable
+	for i, imp := range imports {
+		if imp.Name() == "$ion" {
+			if i == 0 {
+				imps[0] = imp
+			}
+			continue
+		}
+		imps = append(imps, imp)
 	}
 
 	// Calculate offsets.
